@@ -1,6 +1,6 @@
 module verifharness
 
-go 1.18
+go 1.21
 
 require github.com/go-netty/go-netty v0.0.0
 
